@@ -1,7 +1,7 @@
 (* C02 — proofs about the interleaving semantics (C02/Conc.v): in-flight
    conservation holds after every schedule of every set of concurrent calls. *)
 From Coq Require Import List ZArith QArith Bool Lia Arith.
-From GZ Require Import Lib.RollingWindow C02.Model C02.Conc.
+From GZ Require Import Lib.RollingWindow C02.Model C02.Conc C02.Proofs.
 Import ListNotations.
 Open Scope Z_scope.
 
@@ -375,4 +375,135 @@ Proof.
   assert (Hnd' : NoDup (dec_targets ths)).
   { apply dec_targets_nodup. replace (map tcall ths) with calls by (symmetry; exact Hm). exact Hnd. }
   pose proof (NoDup_incl_length Hnd' Hincl). lia.
+Qed.
+
+(* ------------------------------------------------------------------ *)
+(* a concurrent Allow sheds only on what it read: the in-flight count and the
+   average it read exceed 10% of the capacity computed from the window contents
+   it read (all of them possibly stale)                                  *)
+
+Definition reg_capacity (scale : Q) (t : thread) : Q :=
+  at_least (inject_Z (tmp t) * inject_Z (trt t) * scale) 1.
+
+Definition shed_regs_ok (scale : Q) (t : thread) : Prop :=
+  match tcall t with
+  | CAllow _ _ _ =>
+    tpc t = 8%nat \/ tres t = Some RShed ->
+    (overloadFactorLowerBound * reg_capacity scale t < inject_Z (tfl t))%Q /\
+    (overloadFactorLowerBound * reg_capacity scale t < tavg t)%Q
+  | _ => True
+  end.
+
+Lemma bound_lower : forall A f x,
+  (1 <= A)%Q -> (overloadFactorLowerBound <= f)%Q -> (A * f < x)%Q ->
+  (overloadFactorLowerBound * A < x)%Q.
+Proof.
+  intros A f x HA Hf Hx. eapply Qle_lt_trans; [|exact Hx].
+  rewrite (Qmult_comm A f). apply Qmult_le_compat_r; [exact Hf|].
+  eapply Qle_trans; [|exact HA]. discriminate.
+Qed.
+
+Lemma allow_act_regs : forall sh t now c1 c2 sh' t',
+  tcall t = CAllow now c1 c2 -> tres t = None -> (tpc t <= 9)%nat ->
+  shed_regs_ok (sscale sh) t ->
+  allow_act sh t now c1 c2 = (sh', t') ->
+  sscale sh' = sscale sh /\ shed_regs_ok (sscale sh) t'.
+Proof.
+  intros sh t now c1 c2 sh' t' Ec Hn Hle Hok. unfold allow_act, pc_done.
+  destruct (tpc t) as [|[|[|[|[|[|[|[|[|[|n]]]]]]]]]] eqn:Epc; try lia.
+  8: { (* pc 7: the decision *)
+    destruct (overload_factor (sthreshold sh) c2) as [f|] eqn:Ef.
+    - match goal with |- context [if ?b then _ else _] => destruct b eqn:Eb end;
+        intros H; injection H as <- <-; (split; [reflexivity|]);
+        unfold shed_regs_ok; cbn [tcall tpc tres at_pc tfl tavg tmp trt]; rewrite Ec.
+      + intros _. apply andb_true_iff in Eb. destruct Eb as [E1 E2].
+        apply q_ltb_lt in E1. apply q_ltb_lt in E2.
+        unfold reg_bound in E1, E2. cbn [tfl tavg tmp trt at_pc] in E1, E2.
+        destruct (factor_range _ _ _ Ef) as [Hf _].
+        unfold reg_capacity. cbn [tfl tavg tmp trt].
+        pose proof (at_least_ge (inject_Z (tmp t) * inject_Z (trt t) * sscale sh) 1) as HA.
+        split; eapply bound_lower; eauto.
+      + intros [Hx|Hx]; [discriminate|congruence].
+    - intros H; injection H as <- <-. split; [reflexivity|].
+      unfold shed_regs_ok. cbn [tcall tpc tres at_pc]. rewrite Ec.
+      intros [Hx|Hx]; [discriminate|congruence]. }
+  8: { (* pc 8: the verdict is returned, registers unchanged *)
+    intros H; injection H as <- <-. split; [reflexivity|].
+    unfold shed_regs_ok in *. cbn [tcall tpc tres tfl tavg tmp trt]. rewrite Ec in *.
+    intros _. unfold reg_capacity in *. cbn [tmp trt]. apply Hok. left. exact Epc. }
+  all: repeat match goal with
+              | |- context [if ?b then _ else _] => destruct b
+              end;
+    intros H; injection H as <- <-; (split; [reflexivity|]);
+    unfold shed_regs_ok; cbn [tcall tpc tres at_pc]; rewrite Ec;
+    (intros [Hx|Hx]; [discriminate|congruence]).
+Qed.
+
+Lemma resolve_act_scale : forall sh t st pn sh' t',
+  resolve_act sh t st pn = (sh', t') -> sscale sh' = sscale sh /\ tcall t' = tcall t.
+Proof.
+  intros sh t st pn sh' t'. unfold resolve_act.
+  destruct (tpc t) as [|[|[|[|n]]]]; destruct pn; intros H; injection H as <- <-; split; reflexivity.
+Qed.
+
+Lemma act_regs : forall sh ths t sh' t',
+  lwf t -> shed_regs_ok (sscale sh) t -> act sh ths t = (sh', t') ->
+  sscale sh' = sscale sh /\ shed_regs_ok (sscale sh) t'.
+Proof.
+  intros sh ths t sh' t' Hl Hok Hact. unfold act in Hact.
+  destruct (tcall t) as [now c1 c2|p now|p] eqn:Ec.
+  - destruct (le_lt_dec (tpc t) 9) as [Hle|Hgt].
+    + assert (Hn : tres t = None) by (unfold lwf in Hl; rewrite Ec in Hl; auto).
+      eapply allow_act_regs; eauto.
+    + assert (E : (sh', t') = (sh, t)).
+      { rewrite <- Hact. unfold allow_act.
+        destruct (tpc t) as [|[|[|[|[|[|[|[|[|[|n]]]]]]]]]]; try lia; reflexivity. }
+      injection E as -> ->. split; [reflexivity|exact Hok].
+  - destruct (promise_of ths p) as [st|].
+    + destruct (resolve_act_scale _ _ _ _ _ _ Hact) as [Hs Hc]. split; [exact Hs|].
+      unfold shed_regs_ok. rewrite Hc, Ec. exact I.
+    + injection Hact as <- <-. split; [reflexivity|exact Hok].
+  - destruct (promise_of ths p) as [st|].
+    + destruct (resolve_act_scale _ _ _ _ _ _ Hact) as [Hs Hc]. split; [exact Hs|].
+      unfold shed_regs_ok. rewrite Hc, Ec. exact I.
+    + injection Hact as <- <-. split; [reflexivity|exact Hok].
+Qed.
+
+Definition cinv3 (scale : Q) (m : machine) : Prop :=
+  sscale (fst m) = scale /\ Forall (shed_regs_ok scale) (snd m).
+
+Lemma cstep_inv3 : forall scale m tid, cinv m -> cinv3 scale m -> cinv3 scale (cstep m tid).
+Proof.
+  intros scale [sh ths] tid [Hl _] [Hs Hr]. unfold cstep. cbn [fst snd] in *.
+  destruct (nth_error ths tid) as [t|] eqn:E; [|split; assumption].
+  destruct (act sh ths t) as [sh' t'] eqn:Ea. subst scale.
+  destruct (act_regs _ _ _ _ _ (nth_error_Forall _ _ _ _ Hl E) (nth_error_Forall _ _ _ _ Hr E) Ea)
+    as [Hs' Hr'].
+  split; cbn [fst snd]; [exact Hs'|]. apply Forall_upd_nth; assumption.
+Qed.
+
+Lemma crun_inv3 : forall scale sched m, cinv m -> cinv3 scale m -> cinv3 scale (crun m sched).
+Proof.
+  induction sched as [|tid sched IH]; intros m H H3; [exact H3|].
+  cbn [crun fold_left]. apply IH; [apply cstep_inv; exact H|apply cstep_inv3; assumption].
+Qed.
+
+Lemma start_inv3 : forall c t0 calls, cinv3 (window_scale c) (start c t0 calls).
+Proof.
+  intros c t0 calls. split; [reflexivity|]. cbn [start snd].
+  rewrite Forall_forall. intros t Ht. apply in_map_iff in Ht. destruct Ht as [cl [E _]]. subst t.
+  unfold shed_regs_ok. cbn [fresh tcall tpc tres]. destruct cl; auto.
+  intros [Hx|Hx]; discriminate.
+Qed.
+
+Lemma conc_shed_only_loaded_core : forall c t0 calls sched i t now cpu1 cpu2,
+  nth_error (snd (crun (start c t0 calls) sched)) i = Some t ->
+  tcall t = CAllow now cpu1 cpu2 -> tres t = Some RShed ->
+  (overloadFactorLowerBound * reg_capacity (window_scale c) t < inject_Z (tfl t))%Q /\
+  (overloadFactorLowerBound * reg_capacity (window_scale c) t < tavg t)%Q.
+Proof.
+  intros c t0 calls sched i t now cpu1 cpu2 Hi Hc Hr.
+  destruct (crun_inv3 (window_scale c) sched _ (start_inv c t0 calls) (start_inv3 c t0 calls)) as [_ Hall].
+  pose proof (nth_error_Forall _ _ _ _ Hall Hi) as Hok.
+  unfold shed_regs_ok in Hok. rewrite Hc in Hok. apply Hok. right. exact Hr.
 Qed.
